@@ -19,7 +19,7 @@ def run(tier, pid="C01", mode="rt"):
                   "positionally through all 46 reader accessors (incl. 24/48-bit and sign-extending forms); every "
                   "writer and reader accessor additionally on single-lane patterns; readers / writers of 64, 128 and 192 KiB + "
                   "a few bytes (contents by a formula the specification evaluates) with every accessor at offsets around "
-                  "the 2^16 / 2^17 marks and the end; distinct = accessor-name / "
+                  "the 2^16 / 2^17 marks and the end; back-reference writes from the writer's own buffer; distinct = accessor-name / "
                   "operation-outcome classes")
     else:
         c.rule = ("boundary sweep: buffer lengths {0,8} (thorough {0,1,2,7,8,64}) x all (offset,size) pairs from a "
